@@ -1083,6 +1083,7 @@ fn run_shard<P: Prop>(
     match res {
         Ok(()) => {
             stats.frozen = false;
+            crate::props::common::drain_route_counts(&mut stats);
             ShardResult { stats, failure: None, infra: None }
         }
         Err(TestError::Fail(_, case)) => {
